@@ -72,16 +72,19 @@ theorem iteration_eq_regex_iterator {capsAt : Nat → Option Caps} {len : Nat} (
     (start : Nat) : collect capsAt len (len + 2) start none [] = allMatches capsAt len start :=
   collect_eq_allMatches hs start
 
-/-- The printer's replacement buffer for the range `[rs, re)`: every match the printer keeps (`keep`:
+/-- The printer's replacement buffer for the range `[rs, re)` when the haystack does not reach beyond the
+range (`|bytes| ≤ re`: the line-oriented branch cuts it there; the multi-line branch, where a match may reach
+beyond `re` and is clamped, is `Props/C19Multi.lean`): every match the printer keeps (`keep`:
 it starts before `re`, or exactly at `re` when the range ends the haystack without a terminator) is
 replaced by the interpolated template, everything else is copied verbatim. -/
 theorem replace_in_context_eq (capsAt : Nat → Option Caps) (names : List (Bytes × Nat))
-    (bytes : Bytes) (rs re : Nat) (atEnd : Bool) (tmpl : Bytes) (hs : Sane capsAt bytes.length) :
+    (bytes : Bytes) (rs re : Nat) (atEnd : Bool) (tmpl : Bytes) (hs : Sane capsAt bytes.length)
+    (hre : bytes.length ≤ re) :
     (replaceWithCapturesInContext capsAt names bytes rs re atEnd tmpl).dst =
       replaceAllSpec bytes (fun c => interpolate (envOf bytes names c) tmpl)
         ((allMatches capsAt bytes.length rs).takeWhile (keep re atEnd))
         rs (min bytes.length re) :=
-  replace_eq_spec capsAt names bytes rs re atEnd tmpl hs
+  replace_eq_spec capsAt names bytes rs re atEnd tmpl hs hre
 
 /-- **Line level, reference grammar** (after the repair of F6 the end-of-line case needs no guard):
 when the range reaches at least to the end of the haystack — the line's terminator was cut off
@@ -94,7 +97,7 @@ theorem C19_buffer (capsAt : Nat → Option Caps) (names : List (Bytes × Nat))
     (replaceWithCapturesInContext capsAt names bytes rs re atEnd tmpl).dst =
       replaceAllSpec bytes (fun c => expand (envOf bytes names c) tmpl)
         (allMatches capsAt bytes.length rs) rs bytes.length := by
-  rw [replace_in_context_eq capsAt names bytes rs re atEnd tmpl hs]
+  rw [replace_in_context_eq capsAt names bytes rs re atEnd tmpl hs (by omega)]
   have hall : ∀ c ∈ allMatches capsAt bytes.length rs, keep re atEnd c = true := by
     intro c hc
     obtain ⟨p, hp⟩ := specIter_mem hc
@@ -147,10 +150,10 @@ theorem C19_line (t : LineTerm) (capsAtOf : Bytes → Nat → Option Caps) (name
 /-- Lines without a match are never altered: with no match the buffer is the range itself. -/
 theorem unmatched_text_intact (capsAt : Nat → Option Caps) (names : List (Bytes × Nat))
     (bytes : Bytes) (rs re : Nat) (atEnd : Bool) (tmpl : Bytes) (hs : Sane capsAt bytes.length)
-    (hnone : allMatches capsAt bytes.length rs = []) :
+    (hre : bytes.length ≤ re) (hnone : allMatches capsAt bytes.length rs = []) :
     (replaceWithCapturesInContext capsAt names bytes rs re atEnd tmpl).dst =
       slice bytes rs (min bytes.length re) := by
-  rw [replace_in_context_eq capsAt names bytes rs re atEnd tmpl hs, hnone]
+  rw [replace_in_context_eq capsAt names bytes rs re atEnd tmpl hs hre, hnone]
   simp [replaceAllSpec, slice]
 
 /-- the matcher of the pattern `a*` on the haystack `b`: an empty match at 0 and at 1 -/
@@ -178,7 +181,7 @@ example :
     Sane emptyEverywhere 1 ∧ isAtUnterminatedEnd (.byte 10) [98] 0 1 = true ∧ braceOk [88] = true ∧
     (replaceWithCapturesInContext emptyEverywhere [] [98] 0 1 true [88]).dst = [88, 98, 88] := by
   refine ⟨emptyEverywhere_sane, by decide, by decide, ?_⟩
-  rw [replace_in_context_eq emptyEverywhere [] [98] 0 1 true [88] emptyEverywhere_sane]
+  rw [replace_in_context_eq emptyEverywhere [] [98] 0 1 true [88] emptyEverywhere_sane (by decide)]
   have hexp : (fun c => interpolate (envOf [98] [] c) [88]) = fun _ => [88] := by
     funext c; exact interpolate_no_dollar _ [88] (by decide)
   rw [hexp]
